@@ -1,4 +1,805 @@
 import GV.Model.Types
 import GV.Spec.GoTypes
+
+/-!
+  C09 — dynamic types: identity, assertions, method sets, interface equality.
+  Model: GV.Model.Types (types.js / prelude.js as they are).  Spec: GV.Spec.GoTypes (Go spec / go/types).
+  Full-strength statements that are FALSE of the current code are `def … : Prop` (not claimed) with a proved
+  `…_counterexample…` and the strongest proved `…_partial` next to them.
+-/
 namespace GV.Props.C09
+open GV.Types GV.Spec.GoTypes
+
+/-! ## 1. `named_distinct`: every `$newType` call yields a new type object, whatever its string -/
+
+theorem modify_size (s : St) (i : Nat) (f : TypeObj → TypeObj) : (s.modify i f).size = s.size := by
+  simp [St.modify, St.size]
+
+theorem modify_cache (s : St) (i : Nat) (f : TypeObj → TypeObj) : (s.modify i f).cache = s.cache := rfl
+
+theorem initType_size (s : St) (id : Nat) (c : Ctor) : (initType s id c).size = s.size := by
+  cases c <;> simp [initType, modify_size]
+
+theorem initType_cache (s : St) (id : Nat) (c : Ctor) : (initType s id c).cache = s.cache := by
+  cases c <;> rfl
+
+/-- the id returned by `$newType` is not the id of any existing object, and it exists afterwards -/
+theorem newType_fresh (s : St) (kind : Nat) (str : Str) (named : Bool) (pkg : Str) :
+    s.size ≤ (newType s kind str named pkg).2 ∧ (newType s kind str named pkg).2 < (newType s kind str named pkg).1.size := by
+  unfold newType
+  split <;> simp [St.size] <;> omega
+
+theorem newType_size (s : St) (kind : Nat) (str : Str) (named : Bool) (pkg : Str) :
+    s.size < (newType s kind str named pkg).1.size := by
+  have := newType_fresh s kind str named pkg; omega
+
+theorem size_mono_canon (s : St) (c : Ctor) : s.size ≤ (canon s c).1.size := by
+  unfold canon
+  split
+  · exact Nat.le_refl _
+  · simp only [initType_size]
+    have := newType_size s (kindOf c) (strOf s c) false []
+    simp only [St.size] at *
+    omega
+
+theorem size_mono_methodSetSt (s : St) (t : Nat) : s.size ≤ (methodSetSt s t).size := by
+  unfold methodSetSt
+  generalize (methodSetAux s t).2 = l
+  induction l generalizing s with
+  | nil => exact Nat.le_refl _
+  | cons a r ih => exact Nat.le_trans (size_mono_canon s (.ptr a)) (ih _)
+
+theorem size_mono_assert (s : St) (d : Option Nat) (t : Nat) : s.size ≤ (assertType s d t).1.size := by
+  unfold assertType
+  have := size_mono_methodSetSt s
+  split
+  · exact Nat.le_refl _
+  · split
+    · exact Nat.le_refl _
+    · dsimp only
+      split
+      · exact Nat.le_refl _
+      · split <;> simp only [St.size] at * <;> exact this _
+
+/-- everything a program can do to the type machinery -/
+inductive Op
+  | newT (kind : Nat) (str : Str) (named : Bool) (pkg : Str)
+  | canon (c : Ctor)
+  | init (id : Nat) (c : Ctor)
+  | methods (id : Nat) (ms : List Method)
+  | mset (t : Nat)
+  | assert (d : Option Nat) (t : Nat)
+
+def runOp (s : St) : Op → St
+  | .newT k str n p => (newType s k str n p).1
+  | .canon c => (canon s c).1
+  | .init id c => initType s id c
+  | .methods id ms => setMethods s id ms
+  | .mset t => methodSetSt s t
+  | .assert d t => (assertType s d t).1
+
+theorem size_mono_runOp (s : St) (o : Op) : s.size ≤ (runOp s o).size := by
+  cases o with
+  | newT k str n p => exact Nat.le_of_lt (newType_size s k str n p)
+  | canon c => exact size_mono_canon s c
+  | init id c => simp [runOp, initType_size]
+  | methods id ms => simp [runOp, setMethods, modify_size]
+  | mset t => exact size_mono_methodSetSt s t
+  | assert d t => exact size_mono_assert s d t
+
+theorem size_mono_runOps (s : St) (ops : List Op) : s.size ≤ (ops.foldl runOp s).size := by
+  induction ops generalizing s with
+  | nil => exact Nat.le_refl _
+  | cons o r ih => exact Nat.le_trans (size_mono_runOp s o) (ih _)
+
+/-- `named_distinct`: two type declarations (two `$newType` calls, with ANY operations in between and ANY
+    strings — e.g. two local types both printed `main.L`) never share their run-time type object. -/
+theorem named_distinct (s : St) (k1 : Nat) (str1 : Str) (n1 : Bool) (p1 : Str) (ops : List Op)
+    (k2 : Nat) (str2 : Str) (n2 : Bool) (p2 : Str) :
+    (newType s k1 str1 n1 p1).2 ≠ (newType (ops.foldl runOp (newType s k1 str1 n1 p1).1) k2 str2 n2 p2).2 := by
+  have h1 := newType_fresh s k1 str1 n1 p1
+  have h2 := size_mono_runOps (newType s k1 str1 n1 p1).1 ops
+  have h3 := newType_fresh (ops.foldl runOp (newType s k1 str1 n1 p1).1) k2 str2 n2 p2
+  omega
+
+/-! ## 2. `canon_identity`: the canonicalising caches -/
+
+/-- cache invariant: every cached id denotes an existing object and no id is cached twice (under any key of any cache) -/
+def WF (s : St) : Prop := s.cache.Pairwise (fun a b => a.2 ≠ b.2) ∧ ∀ p ∈ s.cache, p.2 < s.size
+
+theorem lookup_mem {α β : Type} [BEq α] (k : α) (l : List (α × β)) (v : β) (h : l.lookup k = some v) :
+    ∃ k', (k', v) ∈ l := by
+  induction l with
+  | nil => simp [List.lookup] at h
+  | cons p t ih =>
+    obtain ⟨k0, v0⟩ := p
+    simp only [List.lookup] at h
+    split at h
+    · exact ⟨k0, by simp_all⟩
+    · obtain ⟨k', hk⟩ := ih h
+      exact ⟨k', List.mem_cons_of_mem _ hk⟩
+
+theorem lookup_val_inj {α β : Type} [BEq α] [LawfulBEq α] (l : List (α × β))
+    (hp : l.Pairwise (fun a b => a.2 ≠ b.2)) (k1 k2 : α) (v : β)
+    (h1 : l.lookup k1 = some v) (h2 : l.lookup k2 = some v) : k1 = k2 := by
+  induction l with
+  | nil => simp [List.lookup] at h1
+  | cons p t ih =>
+    obtain ⟨k0, v0⟩ := p
+    rw [List.pairwise_cons] at hp
+    simp only [List.lookup] at h1 h2
+    split at h1 <;> split at h2
+    · simp_all
+    · obtain ⟨k', hk⟩ := lookup_mem _ _ _ h2
+      have := hp.1 _ hk
+      simp_all
+    · obtain ⟨k', hk⟩ := lookup_mem _ _ _ h1
+      have := hp.1 _ hk
+      simp_all
+    · exact ih hp.2 h1 h2
+
+theorem WF_init : WF init := by
+  constructor
+  · decide
+  · decide
+
+theorem newType_cache_vals (s : St) (kind : Nat) (str : Str) (named : Bool) (pkg : Str) :
+    ∀ p ∈ (newType s kind str named pkg).1.cache, p ∈ s.cache ∨ (p.2 = s.size ∧ (newType s kind str named pkg).2 = s.size + 1) := by
+  unfold newType
+  split
+  · intro p hp
+    simp only [List.mem_cons] at hp
+    rcases hp with rfl | hp
+    · right; simp
+    · left; exact hp
+  · intro p hp; left; exact hp
+
+theorem WF_newType (s : St) (h : WF s) (kind : Nat) (str : Str) (named : Bool) (pkg : Str) :
+    WF (newType s kind str named pkg).1 := by
+  unfold newType
+  split
+  · refine ⟨?_, ?_⟩
+    · show List.Pairwise _ (((cPtr, dec (s.size + 1)), s.size) :: s.cache)
+      rw [List.pairwise_cons]
+      refine ⟨?_, h.1⟩
+      intro p hp
+      have := h.2 p hp
+      simp only
+      omega
+    · intro p hp
+      simp only [List.mem_cons] at hp
+      simp only [St.size, List.length_append, List.length_cons, List.length_nil]
+      rcases hp with rfl | hp
+      · simp only [St.size]; omega
+      · have := h.2 p hp
+        simp only [St.size] at this
+        omega
+  · refine ⟨h.1, ?_⟩
+    intro p hp
+    have := h.2 p hp
+    simp only [St.size, List.length_append, List.length_cons, List.length_nil] at *
+    omega
+
+theorem WF_canon (s : St) (h : WF s) (c : Ctor) : WF (canon s c).1 := by
+  unfold canon
+  split
+  · exact h
+  · have hw := WF_newType s h (kindOf c) (strOf s c) false []
+    have hf := newType_fresh s (kindOf c) (strOf s c) false []
+    have hv := newType_cache_vals s (kindOf c) (strOf s c) false []
+    refine ⟨?_, ?_⟩
+    · rw [initType_cache]
+      simp only
+      rw [List.pairwise_cons]
+      refine ⟨?_, hw.1⟩
+      intro p hp
+      simp only
+      rcases hv p hp with hin | ⟨h1, h2⟩
+      · have := h.2 p hin
+        omega
+      · omega
+    · intro p hp
+      rw [initType_cache] at hp
+      rw [initType_size]
+      simp only [List.mem_cons] at hp
+      rcases hp with rfl | hp
+      · exact hf.2
+      · exact hw.2 p hp
+
+theorem canon_lookup (s : St) (c : Ctor) : (canon s c).1.cache.lookup (ckey c) = some (canon s c).2 := by
+  unfold canon
+  split
+  · rename_i id h; exact h
+  · rw [initType_cache]
+    simp [List.lookup]
+
+theorem canon_id_lt (s : St) (h : WF s) (c : Ctor) : (canon s c).2 < (canon s c).1.size := by
+  have hw := WF_canon s h c
+  obtain ⟨k', hk⟩ := lookup_mem _ _ _ (canon_lookup s c)
+  exact hw.2 _ hk
+
+/-- Two successive constructor calls return the same type object exactly when they use the same cache with the
+    same key string. (So `canon_identity` reduces to: key equality ⇔ Go type identity.) -/
+theorem canon_same_iff_key (s : St) (h : WF s) (c1 c2 : Ctor) :
+    (canon (canon s c1).1 c2).2 = (canon s c1).2 ↔ ckey c2 = ckey c1 := by
+  have hw := WF_canon s h c1
+  have hl := canon_lookup s c1
+  have hlt := canon_id_lt s h c1
+  generalize (canon s c1).1 = s1 at *
+  generalize (canon s c1).2 = id1 at *
+  constructor
+  · intro he
+    unfold canon at he
+    split at he
+    · rename_i id2 h2
+      simp only at he
+      subst he
+      exact lookup_val_inj _ hw.1 _ _ _ h2 hl
+    · simp only at he
+      have := newType_fresh s1 (kindOf c2) (strOf s1 c2) false []
+      omega
+  · intro hk
+    unfold canon
+    rw [hk, hl]
+
+/-! ### key strings are injective for arrays, maps, pointers, slices, channels, functions -/
+
+theorem dec_inj {a b : Nat} (h : dec a = dec b) : a = b := by
+  have ha := @Nat.ofDigitChars_ten_toDigits a
+  have hb := @Nat.ofDigitChars_ten_toDigits b
+  unfold dec at h
+  rw [h] at ha
+  omega
+
+theorem dec_digit {n : Nat} {c : Char} (h : c ∈ dec n) : c.isDigit = true :=
+  Nat.isDigit_of_mem_toDigits (by decide) (by decide) h
+
+theorem dollar_not_dec (n : Nat) : '$' ∉ dec n := fun h => by have := dec_digit h; simp [Char.isDigit] at this
+theorem comma_not_dec (n : Nat) : ',' ∉ dec n := fun h => by have := dec_digit h; simp [Char.isDigit] at this
+theorem dec_ne_nil (n : Nat) : dec n ≠ [] := Nat.toDigits_ne_nil
+
+/-- splitting at the first separator is unambiguous -/
+theorem append_sep_inj {c : Char} : ∀ {a a' b b' : Str}, c ∉ a → c ∉ a' → a ++ c :: b = a' ++ c :: b' → a = a' ∧ b = b'
+  | [], [], _, _, _, _, h => by simp_all
+  | [], x :: a', _, _, _, h', h => by
+    simp only [List.nil_append, List.cons_append, List.cons.injEq] at h
+    simp_all
+  | x :: a, [], _, _, h', _, h => by
+    simp only [List.nil_append, List.cons_append, List.cons.injEq] at h
+    simp_all
+  | x :: a, y :: a', b, b', h1, h2, h => by
+    simp only [List.cons_append, List.cons.injEq] at h
+    have := @append_sep_inj c a a' b b' (by simp_all) (by simp_all) h.2
+    simp_all
+
+theorem arrayKey_inj {e n e' n' : Nat} (h : arrayKey e n = arrayKey e' n') : e = e' ∧ n = n' := by
+  have := append_sep_inj (dollar_not_dec e) (dollar_not_dec e') h
+  exact ⟨dec_inj this.1, dec_inj this.2⟩
+
+theorem mapKey_inj {e n e' n' : Nat} (h : mapKey e n = mapKey e' n') : e = e' ∧ n = n' := arrayKey_inj h
+
+theorem sep_not_joinSep {c : Char} : ∀ (l : List Str), (∀ x ∈ l, c ∉ x) → ∀ {d : Char}, d ≠ c → (∀ x ∈ l, d ∉ x) → d ∉ joinSep c l
+  | [], _, _, _, _ => by simp [joinSep]
+  | [x], _, _, _, h => by simpa [joinSep] using h
+  | x :: y :: r, h1, d, hd, h2 => by
+    have ih := sep_not_joinSep (y :: r) (fun z hz => h1 z (List.mem_cons_of_mem _ hz)) hd (fun z hz => h2 z (List.mem_cons_of_mem _ hz))
+    simp only [joinSep, List.mem_append, List.mem_cons, not_or]
+    exact ⟨h2 x (by simp), hd, ih⟩
+
+/-- `Array.prototype.join` is injective on lists of non-empty strings that do not contain the separator -/
+theorem joinSep_inj {c : Char} : ∀ (l l' : List Str), (∀ x ∈ l, c ∉ x ∧ x ≠ []) → (∀ x ∈ l', c ∉ x ∧ x ≠ []) →
+    joinSep c l = joinSep c l' → l = l'
+  | [], [], _, _, _ => rfl
+  | [], [y], _, h', h => by simp [joinSep] at h; exact absurd h (h' y (by simp)).2
+  | [], y :: z :: r, _, _, h => by simp [joinSep] at h
+  | [x], [], h0, _, h => by simp [joinSep] at h; exact absurd h (h0 x (by simp)).2
+  | [x], [y], _, _, h => by simp [joinSep] at h; simp [h]
+  | [x], y :: z :: r, h0, _, h => by
+    simp only [joinSep] at h
+    have := (h0 x (by simp)).1
+    rw [h] at this
+    simp at this
+  | x :: z :: r, [], _, _, h => by simp [joinSep] at h
+  | x :: z :: r, [y], _, h', h => by
+    simp only [joinSep] at h
+    have := (h' y (by simp)).1
+    rw [← h] at this
+    simp at this
+  | x :: z :: r, y :: w :: q, h0, h', h => by
+    simp only [joinSep] at h
+    have hs := append_sep_inj (h0 x (by simp)).1 (h' y (by simp)).1 h
+    have ih := joinSep_inj (z :: r) (w :: q) (fun a ha => h0 a (List.mem_cons_of_mem _ ha))
+      (fun a ha => h' a (List.mem_cons_of_mem _ ha)) hs.2
+    rw [hs.1, ih]
+
+theorem decs_clean (c : Char) (hc : c.isDigit = false) (l : List Nat) : ∀ x ∈ l.map dec, c ∉ x ∧ x ≠ [] := by
+  intro x hx
+  simp only [List.mem_map] at hx
+  obtain ⟨n, _, rfl⟩ := hx
+  exact ⟨fun h => by have := dec_digit h; simp_all, dec_ne_nil n⟩
+
+theorem map_dec_inj : ∀ {l l' : List Nat}, l.map dec = l'.map dec → l = l'
+  | [], [], _ => rfl
+  | [], _ :: _, h => by simp at h
+  | _ :: _, [], h => by simp at h
+  | a :: l, b :: l', h => by
+    simp only [List.map_cons, List.cons.injEq] at h
+    rw [dec_inj h.1, map_dec_inj h.2]
+
+theorem dollar_not_joined (l : List Nat) : '$' ∉ joinSep ',' (l.map dec) :=
+  sep_not_joinSep _ (fun x hx => (decs_clean ',' (by decide) l x hx).1) (by decide)
+    (fun x hx => (decs_clean '$' (by decide) l x hx).1)
+
+theorem boolStr_inj {a b : Bool} (h : boolStr a = boolStr b) : a = b := by
+  cases a <;> cases b <;> simp [boolStr] at h <;> rfl
+
+theorem funcKey_inj {ps rs ps' rs' : List Nat} {v v' : Bool} (h : funcKey ps rs v = funcKey ps' rs' v') :
+    ps = ps' ∧ rs = rs' ∧ v = v' := by
+  unfold funcKey at h
+  have h1 := append_sep_inj (dollar_not_joined ps) (dollar_not_joined ps') h
+  have h2 := append_sep_inj (dollar_not_joined rs) (dollar_not_joined rs') h1.2
+  refine ⟨?_, ?_, boolStr_inj h2.2⟩
+  · exact map_dec_inj (joinSep_inj _ _ (decs_clean ',' (by decide) ps) (decs_clean ',' (by decide) ps') h1.1)
+  · exact map_dec_inj (joinSep_inj _ _ (decs_clean ',' (by decide) rs) (decs_clean ',' (by decide) rs') h2.1)
+
+/-- constructors whose cache key is injective without any side condition -/
+def KeyInjective : Ctor → Prop
+  | .array .. | .chan .. | .func .. | .map .. | .ptr .. | .slice .. => True
+  | .iface .. | .struct .. => False
+
+instance : DecidablePred KeyInjective := fun c => by cases c <;> unfold KeyInjective <;> infer_instance
+
+/-- for arrays, channels, functions, maps, pointers and slices: same cache key ⇔ identical in Go -/
+theorem key_iff_identical (c1 c2 : Ctor) (h1 : KeyInjective c1) (h2 : KeyInjective c2) :
+    ckey c2 = ckey c1 ↔ goIdentical c2 c1 = true := by
+  cases c1 <;> cases c2 <;> simp only [KeyInjective] at h1 h2 <;>
+    simp only [ckey, goIdentical, Prod.mk.injEq, Bool.and_eq_true, beq_iff_eq, Bool.or_eq_true]
+  case array.array =>
+    constructor
+    · rintro ⟨_, h⟩; exact arrayKey_inj h
+    · rintro ⟨rfl, rfl⟩; exact ⟨trivial, rfl⟩
+  case map.map =>
+    constructor
+    · rintro ⟨_, h⟩; exact mapKey_inj h
+    · rintro ⟨rfl, rfl⟩; exact ⟨trivial, rfl⟩
+  case ptr.ptr =>
+    constructor
+    · rintro ⟨_, h⟩; exact dec_inj h
+    · rintro rfl; exact ⟨trivial, rfl⟩
+  case slice.slice =>
+    constructor
+    · rintro ⟨_, h⟩; exact dec_inj h
+    · rintro rfl; exact ⟨trivial, rfl⟩
+  case func.func =>
+    constructor
+    · rintro ⟨_, h⟩; have := funcKey_inj h; exact ⟨⟨this.1, this.2.1⟩, this.2.2⟩
+    · rintro ⟨⟨rfl, rfl⟩, rfl⟩; exact ⟨trivial, rfl⟩
+  case chan.chan e so ro e' so' ro' =>
+    constructor
+    · rintro ⟨hs, h⟩
+      have := dec_inj h
+      subst this
+      revert hs
+      cases so <;> cases ro <;> cases so' <;> cases ro' <;> simp [cChan, cSendChan, cRecvChan]
+    · rintro ⟨⟨rfl, rfl⟩, h⟩
+      refine ⟨?_, rfl⟩
+      cases so' <;> cases ro <;> cases ro' <;> simp_all
+  all_goals
+    constructor
+    · rintro ⟨hs, _⟩
+      exfalso; revert hs
+      simp only [cArray, cFunc, cIface, cMap, cStruct, cPtr, cSlice, cChan, cSendChan, cRecvChan]
+      repeat' split
+      all_goals decide
+    · intro h; cases h
+
+/-- `canon_identity`, the full-strength statement (NOT claimed: false today for structs):
+    two successive constructor calls yield the same run-time type object iff the types are identical in Go -/
+def canon_identity_full : Prop :=
+  ∀ s, WF s → ∀ c1 c2, ((canon (canon s c1).1 c2).2 = (canon s c1).2 ↔ goIdentical c2 c1 = true)
+
+/-- proved for every constructor whose key is injective: arrays, channels, functions, maps, pointers, slices -/
+theorem canon_identity_partial (s : St) (h : WF s) (c1 c2 : Ctor) (h1 : KeyInjective c1) (h2 : KeyInjective c2) :
+    (canon (canon s c1).1 c2).2 = (canon s c1).2 ↔ goIdentical c2 c1 = true :=
+  (canon_same_iff_key s h c1 c2).trans (key_iff_identical c1 c2 h1 h2)
+
+example : KeyInjective (.func [1, 16] [0] true) ∧ KeyInjective (.array 16 3) := ⟨trivial, trivial⟩
+example : WF (canon init (.map 16 1)).1 := WF_canon _ WF_init _
+
+def fT (emb : Bool) : Field := { name := ['T'], embedded := emb, exported := true, typ := 1, tag := [] }
+
+/-- witness 1: `struct{ T }` and `struct{ T T }` share one run-time type (`$structTypes` key omits `embedded`) -/
+theorem canon_identity_counterexample_embedded : ¬ canon_identity_full := fun h => by
+  have := h init WF_init (.struct [] [fT true]) (.struct [] [fT false])
+  revert this; decide
+
+def fTag (n : String) (t : Nat) (tag : String) : Field :=
+  { name := n.toList, embedded := false, exported := false, typ := t, tag := tag.toList }
+
+/-- witness 2: ``struct{ a int `x$b,1,` }`` and ``struct{ a int `x`; b int }`` share one run-time type
+    (key separators `$` and `,` may occur inside tags) -/
+theorem canon_identity_counterexample_tag : ¬ canon_identity_full := fun h => by
+  have := h init WF_init (.struct (lit "p") [fTag "a" 1 "x$b,1,"]) (.struct (lit "p") [fTag "a" 1 "x", fTag "b" 1 ""])
+  revert this; decide
+
+/-- witness 3: `struct{ x int }` of package p and of package q share one run-time type (key omits `pkgPath`) -/
+theorem canon_identity_counterexample_pkgpath : ¬ canon_identity_full := fun h => by
+  have := h init WF_init (.struct (lit "p") [fTag "x" 1 ""]) (.struct (lit "q") [fTag "x" 1 ""])
+  revert this; decide
+
+/-! ### structs: the key is injective when names and tags avoid the separators and the omitted
+    components (`embedded`, `exported`, `pkgPath`) are determined by the included ones -/
+
+def fcore (f : Field) : Str := f.name ++ ',' :: (dec f.typ ++ ',' :: f.tag)
+
+/-- Go identifiers never contain `,` or `$`; tags may: that is the hypothesis -/
+def CleanField (f : Field) : Prop := ',' ∉ f.name ∧ '$' ∉ f.name ∧ '$' ∉ f.tag
+
+instance : DecidablePred CleanField := fun f => by unfold CleanField; infer_instance
+
+theorem fcore_inj {f g : Field} (hf : CleanField f) (hg : CleanField g) (h : fcore f = fcore g) :
+    f.name = g.name ∧ f.typ = g.typ ∧ f.tag = g.tag := by
+  have h1 := append_sep_inj hf.1 hg.1 h
+  have h2 := append_sep_inj (comma_not_dec _) (comma_not_dec _) h1.2
+  exact ⟨h1.1, dec_inj h2.1, h2.2⟩
+
+theorem fcore_clean {f : Field} (hf : CleanField f) : '$' ∉ fcore f ∧ fcore f ≠ [] := by
+  constructor
+  · have := dollar_not_dec f.typ
+    simp only [fcore, List.mem_append, List.mem_cons, not_or]
+    exact ⟨hf.2.1, by decide, this, by decide, hf.2.2⟩
+  · simp [fcore]
+
+theorem structKey_inj {fs fs' : List Field} (h : ∀ f ∈ fs, CleanField f) (h' : ∀ f ∈ fs', CleanField f)
+    (hk : structKey fs = structKey fs') : fs.map fcore = fs'.map fcore := by
+  apply joinSep_inj _ _ _ _ hk
+  · intro x hx
+    simp only [List.mem_map] at hx
+    obtain ⟨f, hf, rfl⟩ := hx
+    exact fcore_clean (h f hf)
+  · intro x hx
+    simp only [List.mem_map] at hx
+    obtain ⟨f, hf, rfl⟩ := hx
+    exact fcore_clean (h' f hf)
+
+/-- the components the key omits are functions of the ones it includes (true of compiler output when an embedded
+    field is never named like a differently-declared field of the same type, and all structs are of one package) -/
+def FlagsAgree (p p' : Str) (fs fs' : List Field) : Prop :=
+  ∀ f ∈ fs, ∀ g ∈ fs', f.name = g.name → f.typ = g.typ →
+    (f.embedded = g.embedded ∧ f.exported = g.exported ∧ (f.exported = true ∨ p = p'))
+
+theorem structKey_iff_identical (p p' : Str) : ∀ (fs fs' : List Field), (∀ f ∈ fs, CleanField f) → (∀ f ∈ fs', CleanField f) →
+    FlagsAgree p p' fs fs' → (fs.map fcore = fs'.map fcore ↔ fieldsIdentical p p' fs fs' = true)
+  | [], [], _, _, _ => by simp [fieldsIdentical]
+  | [], _ :: _, _, _, _ => by simp [fieldsIdentical]
+  | _ :: _, [], _, _, _ => by simp [fieldsIdentical]
+  | f :: fs, g :: gs, h, h', ha => by
+    have ih := structKey_iff_identical p p' fs gs (fun x hx => h x (List.mem_cons_of_mem _ hx))
+      (fun x hx => h' x (List.mem_cons_of_mem _ hx))
+      (fun x hx y hy => ha x (List.mem_cons_of_mem _ hx) y (List.mem_cons_of_mem _ hy))
+    simp only [List.map_cons, List.cons.injEq, fieldsIdentical, Bool.and_eq_true]
+    constructor
+    · rintro ⟨h1, h2⟩
+      have hc := fcore_inj (h f (by simp)) (h' g (by simp)) h1
+      have hfl := ha f (by simp) g (by simp) hc.1 hc.2.1
+      refine ⟨?_, ih.mp h2⟩
+      simp only [fieldIdentical, Bool.and_eq_true, beq_iff_eq, Bool.or_eq_true]
+      exact ⟨⟨⟨⟨⟨hc.1, hfl.1⟩, hc.2.1⟩, hc.2.2⟩, hfl.2.1⟩, hfl.2.2⟩
+    · rintro ⟨h1, h2⟩
+      simp only [fieldIdentical, Bool.and_eq_true, beq_iff_eq, Bool.or_eq_true] at h1
+      refine ⟨?_, ih.mpr h2⟩
+      simp only [fcore]
+      rw [h1.1.1.1.1.1, h1.1.1.1.2, h1.1.1.2]
+
+/-- `canon_identity` for structs under the explicit hypotheses `CleanField` (no `$`/`,` where the key cannot
+    tell them from separators) and `FlagsAgree` (omitted components determined) -/
+theorem canon_identity_struct_partial (s : St) (h : WF s) (p p' : Str) (fs fs' : List Field)
+    (hc : ∀ f ∈ fs, CleanField f) (hc' : ∀ f ∈ fs', CleanField f) (ha : FlagsAgree p' p fs' fs) :
+    (canon (canon s (.struct p fs)).1 (.struct p' fs')).2 = (canon s (.struct p fs)).2
+      ↔ goIdentical (.struct p' fs') (.struct p fs) = true := by
+  rw [canon_same_iff_key s h]
+  simp only [ckey, goIdentical, Prod.mk.injEq, true_and]
+  rw [← structKey_iff_identical p' p fs' fs hc' hc ha]
+  constructor
+  · exact structKey_inj hc' hc
+  · intro hm; unfold structKey; exact congrArg _ hm
+
+example : (∀ f ∈ [fTag "a" 1 "json:\"a,omitempty\"", fT true], CleanField f) := by decide
+example : FlagsAgree (lit "p") (lit "p") [fTag "a" 1 "k", fT true] [fTag "a" 1 "k", fT true] := by
+  intro f hf g hg; revert f g; decide
+
+/-! ## 3. `methodset_correct` -/
+
+/-- full-strength statement (NOT claimed: false today): `$methodSet` computes the Go method set -/
+def methodset_correct_full : Prop :=
+  ∀ (s : St) (t : Nat) (m : Method), m ∈ methodSet s t ↔ m ∈ specMethodSet s (ptrOfM s) t
+
+/-- witness heaps: `func() int` is type 21; each struct declaration allocates (pointer id, struct id) -/
+def mM (n : String) (pkg : String := "") : Method := { name := n.toList, pkg := pkg.toList, typ := 21 }
+def emb (n : String) (t : Nat) : Field := { name := n.toList, embedded := true, exported := true, typ := t, tag := [] }
+def decl (s : St) (str : String) (kind : Nat := kStruct) : St := (newType s kind str.toList true (lit "main")).1
+def base0 : St := (canon init (.func [] [1] false)).1
+
+/-- `type A struct{}; func (A) M() int; type B struct{}; func (B) M() int; type S struct{ A; B }` -/
+def wAmb : St :=
+  let s := decl (decl (decl base0 "main.A") "main.B") "main.S"      -- A=23 B=25 S=27
+  let s := setMethods (setMethods s 23 [mM "M"]) 25 [mM "M"]
+  initType (initType (initType s 23 (.struct [] [])) 25 (.struct [] [])) 27 (.struct [] [emb "A" 23, emb "B" 25])
+
+/-- witness: the ambiguous selector `S.M` is in the run-time method set (Go: excluded) -/
+theorem methodset_counterexample_ambiguous : ¬ methodset_correct_full := fun h => by
+  have := h wAmb 27 (mM "M"); revert this; decide
+
+/-- `type X struct{}; func (X) M() int; type L struct{ X }; type W struct{ L }; { type L struct{ W } }`:
+    both `L` print as `main.L` -/
+def wSeen : St :=
+  let s := decl (decl (decl (decl base0 "main.X") "main.L") "main.W") "main.L"     -- X=23 L=25 W=27 L'=29
+  let s := setMethods s 23 [mM "M"]
+  initType (initType (initType (initType s 23 (.struct [] [])) 25 (.struct [] [emb "X" 23])) 27 (.struct [] [emb "L" 25]))
+    29 (.struct [] [emb "W" 27])
+
+/-- witness: `seen` is keyed by the type string, so the outer `L` is skipped and `M` is lost -/
+theorem methodset_counterexample_seen : ¬ methodset_correct_full := fun h => by
+  have := h wSeen 29 (mM "M"); revert this; decide
+
+/-- `type E struct{}; func (E) M() int; type T struct{ E }; func (*T) M() int` -/
+def wPtrShadow : St :=
+  let s := decl (decl base0 "main.E") "main.T"       -- E=23, *T=24, T=25
+  let s := setMethods (setMethods s 23 [mM "M"]) 24 [mM "M"]
+  initType (initType s 23 (.struct [] [])) 25 (.struct [] [emb "E" 23])
+
+/-- witness: `(*T).M` hides the promoted `E.M` in Go, so `T`'s method set is empty; the run-time set contains `M` -/
+theorem methodset_counterexample_ptrshadow : ¬ methodset_correct_full := fun h => by
+  have := h wPtrShadow 25 (mM "M"); revert this; decide
+
+/-- `type E struct{}; func (E) M() int; type T struct{ M int; E }` -/
+def wFieldHide : St :=
+  let s := decl (decl base0 "main.E") "main.T"
+  let s := setMethods s 23 [mM "M"]
+  initType (initType s 23 (.struct [] [])) 25
+    (.struct [] [{ name := ['M'], embedded := false, exported := true, typ := 1, tag := [] }, emb "E" 23])
+
+/-- witness: the field `T.M` hides the promoted method `E.M` in Go; `$methodSet` ignores fields -/
+theorem methodset_counterexample_fieldhide : ¬ methodset_correct_full := fun h => by
+  have := h wFieldHide 25 (mM "M"); revert this; decide
+
+/-- `type T struct{}; func (T) toString() int` -/
+def wProto : St :=
+  initType (setMethods (decl base0 "main.T") 23 [mM "toString" "main"]) 23 (.struct [] [])
+
+/-- witness: `base["toString"]` is never `undefined` on a JS object, so the method is dropped -/
+theorem methodset_counterexample_protoname : ¬ methodset_correct_full := fun h => by
+  have := h wProto 23 (mM "toString" "main"); revert this; decide
+
+/-- `type T struct{}; func (T) M() int; type Q *T` -/
+def wNamedPtr : St :=
+  let s := decl (decl base0 "main.T") "main.Q" kPtr    -- T=23, Q=24
+  initType (initType (setMethods s 23 [mM "M"]) 23 (.struct [] [])) 24 (.ptr 23)
+
+/-- witness: a defined pointer type has no methods in Go; `$methodSet` treats it like `*T` -/
+theorem methodset_counterexample_namedptr : ¬ methodset_correct_full := fun h => by
+  have := h wNamedPtr 24 (mM "M"); revert this; decide
+
+/-- `p.E1` with `m()` of package p, `q.E2` with `m()` of package q, `struct{ E1; E2 }` -/
+def wPkgName : St :=
+  let s := decl (decl (decl base0 "p.E1") "q.E2") "p.S"
+  let s := setMethods (setMethods s 23 [mM "m" "p"]) 25 [mM "m" "q"]
+  initType (initType (initType s 23 (.struct [] [])) 25 (.struct [] [])) 27 (.struct [] [emb "E1" 23, emb "E2" 25])
+
+/-- witness: `base` is keyed by the bare name, so `q.m` is lost although `p.m` and `q.m` are different selectors -/
+theorem methodset_counterexample_pkgname : ¬ methodset_correct_full := fun h => by
+  have := h wPkgName 27 (mM "m" "q"); revert this; decide
+
+/-! ## 4. `assert_correct`: every SEQUENCE of assertions answers as Go does -/
+
+/-- full-strength statement (NOT claimed: false today by memo poisoning, and wherever method sets are wrong) -/
+def assert_correct_full : Prop :=
+  ∀ (s : St) (seq : List (Option Nat × Nat)), assertSeq s seq = seq.map fun p => assertS s (ptrOfM s) p.1 p.2
+
+/-- two declarations both printed `main.L` (L=23 embeds X with `N() int`, L'=27 does not), interface{ N() int } = 28 -/
+def wMemo : St :=
+  let s := decl (decl (decl base0 "main.L") "main.X") "main.L"       -- L=23 X=25 L'=27
+  let s := setMethods s 25 [mM "N"]
+  let s := initType (initType (initType s 23 (.struct [] [emb "X" 25])) 25 (.struct [] [])) 27 (.struct [] [])
+  (canon s (.iface [mM "N"])).1
+
+/-- witness: both method sets are right, yet the second answer is the memoised first one -/
+theorem assert_counterexample_memo : ¬ assert_correct_full := fun h => by
+  have := h wMemo [(some 23, 28), (some 27, 28)]; revert this; decide
+
+example : assertSeq wMemo [(some 23, 28), (some 27, 28)] = [true, true] := by decide
+example : assertSeq wMemo [(some 27, 28), (some 23, 28)] = [false, false] := by decide
+
+/-- what a fresh (un-memoised) evaluation of the loop in `$assertType` answers -/
+def computeOk (s : St) (v t : Nat) : Bool := (firstMissing (methodSet s v) (s.get t).methods).isNone
+
+/-- distinct type objects have distinct type strings -/
+def StringsInjective (s : St) : Prop :=
+  ∀ i, i < s.size → ∀ j, j < s.size → (s.get i).str = (s.get j).str → i = j
+
+instance (s : St) : Decidable (StringsInjective s) := by unfold StringsInjective; infer_instance
+
+/-- `$methodSet` never has to create a pointer type on the fly (`$ptrType(e.typ)` finds `e.typ.ptr`) -/
+def NoLazyPtr (s : St) : Prop := ∀ v, v < s.size → (methodSetAux s v).2 = []
+
+instance (s : St) : Decidable (NoLazyPtr s) := by unfold NoLazyPtr; infer_instance
+
+/-- every memo entry is what a fresh evaluation would give for every type carrying that string -/
+def MemoSound (s : St) (memo : List ((Nat × Str) × Bool)) : Prop :=
+  ∀ t str ok, memo.lookup (t, str) = some ok → ∀ v, v < s.size → (s.get v).str = str → computeOk s v t = ok
+
+def withMemo (s : St) (a : List ((Nat × Str) × Bool)) (b : List ((Nat × Str) × Str)) : St :=
+  { s with implementedBy := a, missingMethodFor := b }
+
+theorem msLoop_memo (s : St) (a : List ((Nat × Str) × Bool)) (b : List ((Nat × Str) × Str)) :
+    ∀ (f : Nat) (cur : List Ent) (seen : List Str) (base : List Method) (al : List Nat),
+      msLoop (withMemo s a b) f cur seen base al = msLoop s f cur seen base al := by
+  intro f
+  induction f with
+  | zero => intros; rfl
+  | succ f ih =>
+    intro cur seen base al
+    cases cur with
+    | nil => rfl
+    | cons e r =>
+      simp only [msLoop]
+      have : msVisit (withMemo s a b) = msVisit s := rfl
+      rw [this]
+      exact ih _ _ _ _
+
+theorem methodSetAux_memo (s : St) (a : List ((Nat × Str) × Bool)) (b : List ((Nat × Str) × Str)) (v : Nat) :
+    methodSetAux (withMemo s a b) v = methodSetAux s v := by
+  unfold methodSetAux
+  have h1 : (withMemo s a b).get = s.get := rfl
+  have h2 : (withMemo s a b).size = s.size := rfl
+  simp only [h1, h2, msLoop_memo]
+
+theorem firstMissing_none_iff (vms ims : List Method) :
+    (firstMissing vms ims).isNone = ims.all (fun tm => vms.any fun vm => vm.name == tm.name && vm.pkg == tm.pkg && vm.typ == tm.typ) := by
+  induction ims with
+  | nil => rfl
+  | cons tm r ih =>
+    simp only [firstMissing, List.all_cons]
+    split
+    · rename_i h; rw [ih, h]; rfl
+    · rename_i h
+      have : (vms.any fun vm => vm.name == tm.name && vm.pkg == tm.pkg && vm.typ == tm.typ) = false := by simpa using h
+      rw [this]; rfl
+
+/-- one assertion, with the memo tables generalised: the heap part of the state is untouched, the answer is the fresh
+    evaluation, and the memo stays sound -/
+theorem assertType_step (s : St) (hinj : StringsInjective s) (hlazy : NoLazyPtr s)
+    (a : List ((Nat × Str) × Bool)) (b : List ((Nat × Str) × Str)) (hm : MemoSound s a)
+    (v t : Nat) (hv : v < s.size) (hk : (s.get t).kind = kInterface) :
+    ∃ a' b', (assertType (withMemo s a b) (some v) t).1 = withMemo s a' b' ∧ MemoSound s a' ∧
+      (assertType (withMemo s a b) (some v) t).2.1 = computeOk s v t := by
+  unfold assertType
+  have hg : (withMemo s a b).get = s.get := rfl
+  simp only [hg, hk, ne_eq, not_true_eq_false, if_false]
+  have hi : (withMemo s a b).implementedBy = a := rfl
+  rw [hi]
+  cases hl : a.lookup (t, (s.get v).str) with
+  | some ok =>
+    refine ⟨a, b, rfl, hm, ?_⟩
+    exact (hm t _ ok hl v hv rfl).symm
+  | none =>
+    have hms : methodSet (withMemo s a b) v = methodSet s v := by unfold methodSet; rw [methodSetAux_memo]
+    have hst : methodSetSt (withMemo s a b) v = withMemo s a b := by
+      unfold methodSetSt; rw [methodSetAux_memo, hlazy v hv]; rfl
+    simp only [hms, hst]
+    have sound_cons : ∀ ok, computeOk s v t = ok → MemoSound s (((t, (s.get v).str), ok) :: a) := by
+      intro ok hok t' str' ok' hl' v' hv' hs'
+      simp only [List.lookup] at hl'
+      split at hl'
+      · rename_i heq
+        have heq' : (t', str') = (t, (s.get v).str) := by simpa using heq
+        simp only [Prod.mk.injEq] at heq'
+        have : v' = v := hinj v' hv' v hv (by rw [hs', heq'.2])
+        simp only [Option.some.injEq] at hl'
+        rw [this, heq'.1, ← hl']; exact hok
+      · exact hm t' str' ok' hl' v' hv' hs'
+    cases hf : firstMissing (methodSet s v) (s.get t).methods with
+    | none =>
+      refine ⟨_, _, rfl, sound_cons true (by simp [computeOk, hf]), ?_⟩
+      simp [computeOk, hf]
+    | some nm =>
+      refine ⟨_, _, rfl, sound_cons false (by simp [computeOk, hf]), ?_⟩
+      simp [computeOk, hf]
+
+/-- `assert_correct` under the explicit hypotheses: type strings injective (no memo poisoning), no on-the-fly pointer
+    types, and method sets that agree with Go's on the interfaces asked (discharged by `methodset_correct…partial`
+    for the types it covers). Holds for EVERY sequence of assertions to interface types, from any sound memo. -/
+theorem assert_correct_partial (s : St) (hinj : StringsInjective s) (hlazy : NoLazyPtr s)
+    (hms : ∀ v t, v < s.size → computeOk s v t = implementsS s (ptrOfM s) v t)
+    (seq : List (Option Nat × Nat))
+    (hseq : ∀ p ∈ seq, (s.get p.2).kind = kInterface ∧ ∀ v, p.1 = some v → v < s.size) :
+    ∀ (a : List ((Nat × Str) × Bool)) (b : List ((Nat × Str) × Str)), MemoSound s a →
+      assertSeq (withMemo s a b) seq = seq.map fun p => assertS s (ptrOfM s) p.1 p.2 := by
+  induction seq with
+  | nil => intros; rfl
+  | cons p r ih =>
+    intro a b hm
+    obtain ⟨d, t⟩ := p
+    have hp := hseq (d, t) (by simp)
+    have ihr := ih (fun q hq => hseq q (List.mem_cons_of_mem _ hq))
+    cases d with
+    | none =>
+      simp only [assertSeq, List.map_cons]
+      have : assertType (withMemo s a b) none t = (withMemo s a b, (false, [])) := rfl
+      rw [this]
+      simp only [ihr a b hm]
+      rfl
+    | some v =>
+      have hv := hp.2 v rfl
+      obtain ⟨a', b', h1, h2, h3⟩ := assertType_step s hinj hlazy a b hm v t hv hp.1
+      have hs : assertS s (ptrOfM s) (some v) t = implementsS s (ptrOfM s) v t := by
+        have := hp.1
+        simp only at this
+        simp [assertS, this]
+      simp only [assertSeq, List.map_cons]
+      rw [h1, h3, ihr a' b' h2, hms v t hv, hs]
+
+/-- the non-interface case of `$assertType`: constructor identity, i.e. (by `canon_identity`/`named_distinct`) type identity -/
+theorem assert_concrete (s : St) (v t : Nat) (hk : (s.get t).kind ≠ kInterface) :
+    (assertType s (some v) t).2.1 = (v == t) ∧ (assertType s (some v) t).1 = s ∧ (assertType s none t).2.1 = false := by
+  unfold assertType
+  simp [hk]
+
+/-- the hypotheses are satisfiable by a non-trivial heap (the ambiguity witness heap has injective strings) -/
+example : StringsInjective wAmb ∧ NoLazyPtr wAmb ∧ MemoSound wAmb [] := by
+  refine ⟨by decide, by decide, ?_⟩
+  intro t str ok h; simp [List.lookup] at h
+
+/-! ## 5. `iface_eq`: `$interfaceIsEqual` is Go's `==` on interface values -/
+
+/-- full-strength statement (NOT claimed: false today, the `comparable` flag can be stale) -/
+def iface_eq_full : Prop := ∀ (s : St) (a b : Val), ifaceEqual s a b = ifaceEqS s a b
+
+/-- the `comparable` flag of every type object is Go's comparability of that type -/
+def ComparableFlagsOk (s : St) : Prop := ∀ t, t < s.size → (s.get t).comparable = comparableS s (s.size + 1) t
+
+instance (s : St) : Decidable (ComparableFlagsOk s) := by unfold ComparableFlagsOk; infer_instance
+
+theorem get_oob (s : St) (t : Nat) (h : s.size ≤ t) : s.get t = dflt := by
+  simp only [St.get, St.size] at *
+  simp [List.getD, List.getElem?_eq_none h]
+
+theorem flags_all (s : St) (h : ComparableFlagsOk s) (t : Nat) : comparableS s (s.size + 1) t = (s.get t).comparable := by
+  by_cases ht : t < s.size
+  · exact (h t ht).symm
+  · have := get_oob s t (by omega)
+    simp [comparableS, this, dflt, kSlice, kMap, kFunc, kArray, kStruct]
+
+theorem eq_models_agree (s : St) (h : ComparableFlagsOk s) : ∀ (a b : Val) (t : Nat), valEqual s a b t = eqS s a b t := by
+  have hh := flags_all s h
+  clear h
+  apply valEqual.induct s (motive_1 := fun a b t => valEqual s a b t = eqS s a b t)
+    (motive_2 := fun as bs ts => listEqualStruct s as bs ts = eqStructS s as bs ts)
+    (motive_3 := fun as bs t => listEqualArr s as bs t = eqArrS s as bs t)
+  all_goals (intros; simp_all +zetaDelta [valEqual, eqS, listEqualStruct, eqStructS, listEqualArr, eqArrS])
+
+/-- `iface_eq` for ALL values (nested structs, arrays, interfaces) on every heap whose comparable flags are right:
+    same verdict including the "comparing uncomparable type" panic -/
+theorem iface_eq_partial (s : St) (h : ComparableFlagsOk s) (a b : Val) : ifaceEqual s a b = ifaceEqS s a b :=
+  eq_models_agree s h a b 0
+
+/-- `type A struct{ b B }; type B struct{ s []int }`, `A.init` runs before `B.init` (declaration order) -/
+def wCmp : St :=
+  let s0 := (canon init (.slice 1)).1                       -- []int = 21
+  let s := decl (decl s0 "main.A") "main.B"                 -- A=23 B=25
+  let fld (n : String) (t : Nat) : Field := { name := n.toList, embedded := false, exported := false, typ := t, tag := [] }
+  initType (initType s 23 (.struct (lit "main") [fld "b" 25])) 25 (.struct (lit "main") [fld "s" 21])
+
+/-- witness: `interface{}(A{}) == interface{}(A{})` must panic (A contains a slice); the stale flag lets it through -/
+theorem iface_eq_counterexample : ¬ iface_eq_full := fun h => by
+  have := h wCmp (.iface 23 (.tuple [.tuple [.ref 0]])) (.iface 23 (.tuple [.tuple [.ref 0]]))
+  revert this; decide
+
+/-- the same declarations initialised in dependency order satisfy the hypothesis -/
+example : ComparableFlagsOk
+    (let s0 := (canon init (.slice 1)).1
+     let s := decl (decl s0 "main.A") "main.B"
+     let fld (n : String) (t : Nat) : Field := { name := n.toList, embedded := false, exported := false, typ := t, tag := [] }
+     initType (initType s 25 (.struct (lit "main") [fld "s" 21])) 23 (.struct (lit "main") [fld "b" 25])) := by decide
+
 end GV.Props.C09
